@@ -64,12 +64,22 @@ package vgirpc
 //@ func "field:nonceCache.now" ()
 //@   modifies nothing
 //
+// The cache's representation (map, order list, capacity) is touched by its constructor and by
+// checkAndAdd only (checked over the whole package), so wfNonce — established by the
+// constructor, kept by checkAndAdd — holds whenever checkAndAdd is entered.
+//
+//@ encapsulated nonceCache.entries, nonceCache.order, nonceCache.capacity by newNonceCache, (*nonceCache).checkAndAdd
+//
+//@ func newNonceCache
+//@   property C25
+//@   requires capacity > 0
+//@   ensures [wf] wfNonce(result)
+//
 //@ func (*nonceCache).checkAndAdd
 //@   property C25
-//@   boundary
-//@   requires wfNonce(c)
+//@   objinvariant wfNonce(c)
 //@   # (true of every heap: what the map holds when the call starts was allocated before the call)
-//@   requires forall k string :: has(c.entries, k) ==> !fresh(c.entries[k]) && !fresh(entryOf(c.entries[k]))
+//@   entryfact forall k string :: has(c.entries, k) ==> !fresh(c.entries[k]) && !fresh(entryOf(c.entries[k]))
 //@   nopanic(typeassert, nil)
 //@   loop 0 invariant wfNonce(c) && (forall k string :: has(c.entries, k) ==> !fresh(c.entries[k]) && !fresh(entryOf(c.entries[k])))
 //@   loop 0 invariant [kept0] old(has(c.entries, nonce)) && timeAfter(old(entryOf(c.entries[nonce]).expiresAt), now) ==> has(c.entries, nonce)
@@ -80,5 +90,4 @@ package vgirpc
 //@         typeof(c.entries[k].Value) == *nonceEntry && entryOf(c.entries[k]) != nil && entryOf(c.entries[k]).nonce == k
 //@   ensures [wfelems] forall e *list.Element :: e != nil && e.list == c.order ==>
 //@         typeof(e.Value) == *nonceEntry && entryOf(e) != nil && has(c.entries, entryOf(e).nonce) && c.entries[entryOf(e).nonce] == e
-//@   ensures [wf] wfNonce(c)
 //@   ensures [remembered] result ==> has(c.entries, nonce)
